@@ -107,14 +107,20 @@ Proof. reflexivity. Qed.
 
 Definition cells_ge (n : nat) (ex : list cell) : Prop := Forall (fun c => Forall (vref_ge n) (cell_vals c)) ex.
 
+Definition cells_lt (n : nat) (ex : list cell) : Prop := Forall (fun c => Forall (vref_lt n) (cell_vals c)) ex.
 Definition build_ok (t : tree) : Prop := forall h h' v, build t h = (h', v) ->
   exists ex, h' = h ++ ex /\ vref_ge (length h) v /\ vref_lt (length h') v /\ cells_ge (length h) ex
-             /\ exists n, snap n h' v = Some t.
+             /\ cells_lt (length h') ex /\ exists n, snap n h' v = Some t.
 
 Lemma vref_ge_le n m v : n <= m -> vref_ge m v -> vref_ge n v.
 Proof. destruct v; cbn; auto. lia. Qed.
 Lemma vref_lt_le n m v : n <= m -> vref_lt n v -> vref_lt m v.
 Proof. destruct v; cbn; auto. lia. Qed.
+Lemma cells_lt_le n m ex : n <= m -> cells_lt n ex -> cells_lt m ex.
+Proof.
+  intros L H. unfold cells_lt in *. eapply Forall_impl; [|exact H]. intros c Hc. eapply Forall_impl; [|exact Hc].
+  intros v. apply vref_lt_le. exact L.
+Qed.
 Lemma cells_ge_le n m ex : n <= m -> cells_ge m ex -> cells_ge n ex.
 Proof.
   intros L H. unfold cells_ge in *. eapply Forall_impl; [|exact H]. intros c Hc. eapply Forall_impl; [|exact Hc].
@@ -123,19 +129,20 @@ Qed.
 
 Lemma build_list_ok l : Forall build_ok l -> forall h h1 vs, build_list l h = (h1, vs) ->
   exists ex, h1 = h ++ ex /\ Forall (vref_ge (length h)) vs /\ Forall (vref_lt (length h1)) vs /\ cells_ge (length h) ex
-             /\ exists n, mapM (snap n h1) vs = Some l.
+             /\ cells_lt (length h1) ex /\ exists n, mapM (snap n h1) vs = Some l.
 Proof.
   induction 1 as [|x r Hx Hr IH]; intros h h1 vs E; cbn in E.
   - inversion E; subst. exists []. rewrite app_nil_r. repeat split; auto; try constructor. exists 0. reflexivity.
   - destruct (build x h) as [ha v] eqn:Bx. destruct (build_list r ha) as [hb vs'] eqn:Br. inversion E; subst. clear E.
-    destruct (Hx _ _ _ Bx) as (ex1 & -> & G1 & L1 & C1 & n1 & S1).
-    destruct (IH _ _ _ Br) as (ex2 & -> & G2 & L2 & C2 & n2 & S2).
+    destruct (Hx _ _ _ Bx) as (ex1 & -> & G1 & L1 & C1 & D1 & n1 & S1).
+    destruct (IH _ _ _ Br) as (ex2 & -> & G2 & L2 & C2 & D2 & n2 & S2).
     exists (ex1 ++ ex2). rewrite app_assoc. split; [reflexivity|].
     assert (length h <= length (h ++ ex1)) as LE1 by (rewrite !app_length; lia).
     assert (length (h ++ ex1) <= length ((h ++ ex1) ++ ex2)) as LE2 by (rewrite !app_length; lia).
     split; [constructor; auto; eapply Forall_impl; [|exact G2]; intros a; apply vref_ge_le; exact LE1|].
     split; [constructor; auto; eapply vref_lt_le; eauto|].
     split; [apply Forall_app; split; auto; eapply cells_ge_le; eauto|].
+    split; [apply Forall_app; split; auto; eapply cells_lt_le; eauto|].
     exists (Nat.max n1 n2). cbn.
     rewrite (snap_fuel n1 (Nat.max n1 n2) _ _ _ (Nat.le_max_l _ _) (snap_app _ _ ex2 _ _ S1)).
     erewrite mapM_impl; [reflexivity| |exact S2].
@@ -144,14 +151,14 @@ Qed.
 
 Lemma build_items_ok kvs : Forall (fun kv => build_ok (snd kv)) kvs -> forall h h1 vs, build_items kvs h = (h1, vs) ->
   exists ex, h1 = h ++ ex /\ Forall (vref_ge (length h)) (map snd vs) /\ Forall (vref_lt (length h1)) (map snd vs)
-             /\ cells_ge (length h) ex
+             /\ cells_ge (length h) ex /\ cells_lt (length h1) ex
              /\ exists n, mapM (fun kv => option_map (pair (fst kv)) (snap n h1 (snd kv))) vs = Some kvs.
 Proof.
   induction 1 as [|[k x] r Hx Hr IH]; intros h h1 vs E; cbn in E.
   - inversion E; subst. exists []. rewrite app_nil_r. repeat split; auto; try constructor. exists 0. reflexivity.
   - destruct (build x h) as [ha v] eqn:Bx. destruct (build_items r ha) as [hb vs'] eqn:Br. inversion E; subst. clear E.
-    cbn in Hx. destruct (Hx _ _ _ Bx) as (ex1 & -> & G1 & L1 & C1 & n1 & S1).
-    destruct (IH _ _ _ Br) as (ex2 & -> & G2 & L2 & C2 & n2 & S2).
+    cbn in Hx. destruct (Hx _ _ _ Bx) as (ex1 & -> & G1 & L1 & C1 & D1 & n1 & S1).
+    destruct (IH _ _ _ Br) as (ex2 & -> & G2 & L2 & C2 & D2 & n2 & S2).
     exists (ex1 ++ ex2). rewrite app_assoc. split; [reflexivity|].
     assert (length h <= length (h ++ ex1)) as LE1 by (rewrite !app_length; lia).
     assert (length (h ++ ex1) <= length ((h ++ ex1) ++ ex2)) as LE2 by (rewrite !app_length; lia).
@@ -159,6 +166,7 @@ Proof.
     split; [constructor; auto; eapply Forall_impl; [|exact G2]; intros a; apply vref_ge_le; exact LE1|].
     split; [constructor; auto; eapply vref_lt_le; eauto|].
     split; [apply Forall_app; split; auto; eapply cells_ge_le; eauto|].
+    split; [apply Forall_app; split; auto; eapply cells_lt_le; eauto|].
     exists (Nat.max n1 n2). cbn.
     rewrite (snap_fuel n1 (Nat.max n1 n2) _ _ _ (Nat.le_max_l _ _) (snap_app _ _ ex2 _ _ S1)). cbn.
     erewrite mapM_impl; [reflexivity| |exact S2].
@@ -175,17 +183,21 @@ Proof.
     try (cbn in E; inversion E; subst; exists []; rewrite app_nil_r; repeat split; cbn; auto; try constructor;
          exists 0; reflexivity).
   - rewrite build_TList in E. destruct (build_list l h) as [h1 vs] eqn:B. inversion E; subst. clear E.
-    destruct (build_list_ok l IH _ _ _ B) as (ex & -> & G & L & C & n & Sm).
+    destruct (build_list_ok l IH _ _ _ B) as (ex & -> & G & L & C & D & n & Sm).
     exists (ex ++ [CList vs]). rewrite app_assoc. split; [reflexivity|].
     split; [cbn; rewrite app_length; lia|]. split; [cbn; rewrite !app_length; cbn; lia|].
     split; [apply Forall_app; split; auto; constructor; auto|].
+    split; [apply Forall_app; split; [eapply cells_lt_le; [|exact D]; rewrite !app_length; lia|];
+            constructor; [|constructor]; eapply Forall_impl; [|exact L]; intros a; apply vref_lt_le; rewrite !app_length; lia|].
     exists (S n). cbn. rewrite nth_error_app_last.
     erewrite mapM_impl; [reflexivity| |exact Sm]. intros a y _ Hy. apply snap_app. exact Hy.
   - rewrite build_TMap in E. destruct (build_items kvs h) as [h1 vs] eqn:B. inversion E; subst. clear E.
-    destruct (build_items_ok kvs IH _ _ _ B) as (ex & -> & G & L & C & n & Sm).
+    destruct (build_items_ok kvs IH _ _ _ B) as (ex & -> & G & L & C & D & n & Sm).
     exists (ex ++ [CMap g vs]). rewrite app_assoc. split; [reflexivity|].
     split; [cbn; rewrite app_length; lia|]. split; [cbn; rewrite !app_length; cbn; lia|].
     split; [apply Forall_app; split; auto; constructor; auto|].
+    split; [apply Forall_app; split; [eapply cells_lt_le; [|exact D]; rewrite !app_length; lia|];
+            constructor; [|constructor]; eapply Forall_impl; [|exact L]; intros a; apply vref_lt_le; rewrite !app_length; lia|].
     exists (S n). cbn. rewrite nth_error_app_last.
     erewrite mapM_impl; [reflexivity| |exact Sm]. intros a y _ Hy. cbn in Hy.
     destruct (snap n _ (snd a)) as [t'|] eqn:Sa; [|discriminate]. rewrite (snap_app _ _ _ _ _ Sa). exact Hy.
@@ -218,7 +230,7 @@ Theorem deepcopy_disjoint n h x h' y : heap_ok h -> vref_lt (length h) x -> deep
     (forall l, Reach h' x l -> l < length h) /\ (forall l, Reach h' y l -> length h <= l).
 Proof.
   intros OK Lx D. unfold deepcopy in D. destruct (snap n h x) as [t|] eqn:S; [|discriminate]. inversion D as [B]. clear D.
-  destruct (build_spec t _ _ _ B) as (ex & -> & G & L & C & m & Sy).
+  destruct (build_spec t _ _ _ B) as (ex & -> & G & L & C & _ & m & Sy).
   exists t, ex. split; [reflexivity|]. split; [reflexivity|]. split; [apply snap_app; exact S|]. split; [exists m; exact Sy|].
   split; intros l R; [eapply reach_old; eauto|eapply reach_new; eauto].
 Qed.
